@@ -113,9 +113,29 @@ def replay_history(params, hist):
                         return 'step %d: next(it%d) surfaced the source failure, spec item %d' % (n + 1, i, want), None
                 except DUMP_ERRORS as e:
                     its.pop(i, None)
+                    if isinstance(e, TypeError) and isinstance(td, bytes) and 'bytes' in str(e):
+                        # an implementation that builds its temp-file names from str pieces refuses a bytes directory up
+                        # front: outside the property (nothing is created, nothing can leak) - the history is skipped
+                        its.clear()
+                        view = None
+                        left = nfiles(tmp)
+                        if left:
+                            return 'bytes tempdir refused (%r) but %d temporary file(s) remain' % (e, left), None
+                        return None, 'bytes tempdir refused by the implementation: %r' % (e,)
                     if not (want == -1 and params['FailAt'] > 100):
                         return 'step %d: next(it%d) raised %r' % (n + 1, i, e), None
                     e = None
+                except TypeError as e:
+                    if isinstance(td, bytes) and 'bytes' in str(e):
+                        # an implementation that builds its temp-file names from str pieces refuses a bytes directory up
+                        # front: outside the property (nothing is created, nothing can leak) - the history is skipped
+                        its.clear()
+                        view = None
+                        left = nfiles(tmp)
+                        if left:
+                            return 'bytes tempdir refused (%r) but %d temporary file(s) remain' % (e, left), None
+                        return None, 'bytes tempdir refused by the implementation: %r' % (e,)
+                    return 'step %d: next(it%d) raised %r' % (n + 1, i, e), None
                 except Exception as e:
                     return 'step %d: next(it%d) raised %r' % (n + 1, i, e), None
             f = nfiles(tmp)
